@@ -70,7 +70,8 @@ def run(ck):
         ck.coqchk(["GM.Props.C03"])
     skipped = ck.stats.get("model_skipped", 0)
     ck.evaluations = (ck.stats.get("model_cases", 0) + ck.stats.get("direct_frames", 0) + ck.stats.get("direct_wire", 0) +
-                      ck.stats.get("direct_truncation", 0) + ck.stats.get("direct_limit_first", 0) + ck.stats.get("direct_timer_flush", 0))
+                      ck.stats.get("direct_truncation", 0) + ck.stats.get("direct_limit_first", 0) + ck.stats.get("direct_timer_flush", 0) +
+                      ck.stats.get("direct_flushed_after", 0) + ck.stats.get("loopback_runs", 0))
     ck.distinct = ck.stats.get("model_distinct", 0)
     ck.rule = ("decoder: streams of 1..6 packets, all 14 types leading, EVERY 2- and 3-way split of streams up to 64 bytes, truncation at every "
                "prefix (one chunk / byte-at-a-time / chunks 1..3, EOF and failing source), packets of 4090..4101, 8191..8193, 12288 bytes "
@@ -83,7 +84,9 @@ def run(ck):
                "frames, a text message, close frame vs dropped connection) and TCP loopback, thorough adds 240 random loopback runs. Property clauses "
                "evaluated on the implementation alone (direct lines): packets received == packets sent, truncation => ErrUnexpectedEOF after the "
                "complete packets, limit refusal within 5 bytes, wire == concatenation of accepted encodings (prefix of it under failures), "
-               "everything on the wire once the flush delay has elapsed, same outcome for every chunking of one stream. "
+               "everything on the wire once the flush delay has elapsed, nothing left behind by a flushing operation (c03_flushed_after), no packet above the "
+               "limit handed out, the limit per packet whatever the grouping into WebSocket messages, a carrier pair that cannot be established is a "
+               "verdict (c03_carrier_available), same outcome for every chunking of one stream; see audit/C03.md. "
                "distinct_nontrivial = distinct (kind, terminal error, limit on/off, packets, chunk-size class, leading type) resp. "
                "(operation sequence, result sequence) classes on the model side; %d cases skipped because the flush timer fired outside a wait window"
                % skipped)
